@@ -136,7 +136,10 @@ class C08(MonitorCheck):
                         if ok is None:
                             obl['undetermined'] += 1
                         elif ok is False:
-                            add('outside-bound', '%s|%s-vs-%s' % (kind, shape(x, 1), shape(b, 1)),
+                            outer = refrel.has_tvars(b)
+                            add('outside-bound', '%s|%s' % (
+                                kind, 'bound-mentions-outer-type-variable' if outer
+                                else '%s-vs-%s' % (shape(x, 1), shape(b, 1))),
                                 '%s: argument %d = %s is not within the bound %s' % (
                                     where, i, tstr(a), tstr(b)))
                 # pre-assignment kept
